@@ -226,7 +226,9 @@ class Gen:
                 if nobj == 0 or c < 0.18: ops.append(('g', rng.randrange(4))); nobj += 1
                 elif c < 0.26: ops.append(('n', rng.randrange(4))); nobj += 1
                 elif c < 0.36: ops.append(('p', rng.randrange(3))); nobj += 1
-                elif c < 0.56: ops.append(('c', rng.randrange(nobj + 1))); nobj += 1      # may name a destroyed / not yet existing object: skipped
+                elif c < 0.48: ops.append(('c', rng.randrange(nobj + 1))); nobj += 1      # may name a destroyed / not yet existing object: skipped
+                elif c < 0.53: ops.append(('m', rng.randrange(nobj + 1))); nobj += 1      # move-construct / vector growth: copies in the model
+                elif c < 0.56: ops.append(('w', rng.randrange(nobj + 1))); nobj += 1
                 elif c < 0.74: ops.append(('d', rng.randrange(nobj + 1)))
                 elif c < 0.90: ops.append(('k', rng.randrange(nobj + 1)))
                 else: ops.append(('r', rng.randrange(nobj + 1)))
@@ -241,7 +243,8 @@ def parse_hist(line):
 
 def hist_lines(names, forms, ops):
     cpp = 'Hist %d %s %d %s %s' % (len(names), ' '.join(xapi.sarg(n) for n in names), len(forms), ' '.join(xapi.sarg(f) for f in forms), ' '.join('%s%d' % o for o in ops))
-    mod = 'hist ' + ' '.join('%s%d' % (o, (x + 100) if o == 'p' else x) for o, x in ops)
+    # the unchanged header has no move constructor and no special vector support: `m` and `w` are copies in the ownership model
+    mod = 'hist ' + ' '.join('%s%d' % ('c' if o in ('m', 'w') else o, (x + 100) if o == 'p' else x) for o, x in ops)
     return cpp, mod
 
 # ------------------------------------------------------------------------------------------------ the check
